@@ -58,11 +58,11 @@ ProjAM(tm, c) ==
 Event(op, pres, posts, par) == [a |-> "Op", op |-> op, err |-> "", pre |-> pres, post |-> posts, par |-> par,
                                 ck_pre |-> <<>>, ck_post |-> <<>>]
 
-\* ---- tag universes: full = every cell subset with a derived facet subset + facet subsets (all of them up to 9
-\* facets, otherwise those with at most two facets, every second facet, everything) with a derived cell subset;
+\* ---- tag universes: full = every cell subset with a derived facet subset + facet subsets (all of them up to 8
+\* facets in the quick tier, 12 in the thorough tier; otherwise those with at most two facets, every second facet, everything) with a derived cell subset;
 \* small = three of each (used below compositions)
 CellsOf(m)  == 1..Len(m.t)
-FacetSubsets(nf) == IF nf <= 9 \/ (Tier = "thorough" /\ nf <= 12) THEN SUBSET (1..nf)
+FacetSubsets(nf) == IF nf <= 8 \/ (Tier = "thorough" /\ nf <= 12) THEN SUBSET (1..nf)
                     ELSE {F \in SUBSET (1..nf) : Cardinality(F) <= 2} \cup {1..nf, {f \in 1..nf : f % 2 = 0}}
 DerivedF(nf, S) == {f \in 1..nf : (f + Cardinality(S)) % 3 = 0}
 DerivedS(m, F)  == {k \in CellsOf(m) : (k + Cardinality(F)) % 2 = 0}
